@@ -242,6 +242,8 @@ def finish(mod, modname, pid, tier, seed, repo, t0, results, skipped, heavy, n_j
             srv.close()
     if herr or force_harness_error:
         status = EXIT_HARNESS if status == EXIT_OK else status
+    if reported:
+        status = EXIT_VIOLATION       # a violation that reproduces on the real code outranks harness trouble in the same run
     wall = time.time() - t0
     slow = sorted(((r.get("wall_s", 0), r.get("key")) for r in results), reverse=True)[:5]
     log(f"[{pid}] slowest tasks: " + "; ".join(f"{w:.1f}s {k}" for w, k in slow))
